@@ -130,6 +130,13 @@ PubOk(v) == v # Inf /\ PairOk(v[1], v[2])
 \* onc: the curve equation holds modulo p).  PubSilentF: not field elements but congruent to a point.
 PubOkF(f) == ~f.isinf /\ ~f.halfnone /\ f.xlt /\ f.ylt /\ f.onc
 PubSilentF(f) == ~f.isinf /\ ~f.halfnone /\ f.onc /\ ~(f.xlt /\ f.ylt)
+\* Such a pair is not a public key (its coordinates are not field elements), yet it is congruent to exactly one:
+\* the property names refusal for what is no point and a faithful round trip for every key a caller holds, so
+\* the pair is either refused, or read as the point it is congruent to - and then every encoding of the key
+\* that comes back is an encoding of THAT point (never of its negative, never undecodable).
+LiftRead(x, y) == <<x % P, y % P>>
+LiftOutcomeOk(x, y, accepted, secs) ==       \* secs: the points the key's SEC forms decode to
+    accepted => \A q \in secs : q = LiftRead(x, y)
 
 (* ------------------------------------------------------------------------- 32-byte exponents, WIF *)
 \* n of secp256k1 (SEC 2, 2.4.1), big-endian
